@@ -33,6 +33,7 @@ const (
 	Sparse   = "sparse"   // requested pairs that exist and are non-zero only
 	Superset = "superset" // deep copy of the whole content whatever was asked
 	Shared   = "shared"   // hands out its own internal maps (to observe mutation)
+	NilMaps  = "nilmaps"  // like sparse, but an answer without entries is a nil map (and accounts without entries are absent)
 )
 
 type Call struct {
@@ -114,7 +115,7 @@ func (s *Store) GetBalances(_ context.Context, q numscript.BalanceQuery) (numscr
 				}
 			}
 		}
-	case Sparse:
+	case Sparse, NilMaps:
 		for a, assets := range q {
 			for _, as := range assets {
 				if v, ok := s.Content.bal(a, as); ok && v.Sign() != 0 {
@@ -137,6 +138,9 @@ func (s *Store) GetBalances(_ context.Context, q numscript.BalanceQuery) (numscr
 	default:
 		panic("unknown store mode " + s.Mode)
 	}
+	if s.Mode == NilMaps && len(out) == 0 {
+		return nil, nil
+	}
 	return out, nil
 }
 
@@ -146,7 +150,7 @@ func (s *Store) GetAccountsMetadata(_ context.Context, q numscript.MetadataQuery
 	}
 	out := numscript.AccountsMetadata{}
 	switch s.Mode {
-	case Exact, Sparse:
+	case Exact, Sparse, NilMaps:
 		for a, keys := range q {
 			for _, k := range keys {
 				if v, ok := s.Content.Meta[a][k]; ok {
@@ -166,6 +170,9 @@ func (s *Store) GetAccountsMetadata(_ context.Context, q numscript.MetadataQuery
 		}
 	case Shared:
 		return s.sharedMeta, nil
+	}
+	if s.Mode == NilMaps && len(out) == 0 {
+		return nil, nil
 	}
 	return out, nil
 }
